@@ -35,6 +35,13 @@ from typing import Tuple
 def _reverse_sub(y, x):
 	return x - y
 
+def _widen(x, kind):
+	"""x as a float / complex; an int beyond the float range stays as it is (as in a column typed by inference)."""
+	try:
+		return kind(x)
+	except OverflowError:
+		return x
+
 def _reverse_mul(y, x):
 	return x * y
 
@@ -1136,14 +1143,14 @@ class Vector():
 		# Allow numeric promotions: int -> float, float -> complex
 		if target_kind is float and self._dtype.kind is int:
 			old_tuple_id = id(self._underlying)
-			new_tuple = tuple(float(x) if x is not None else None for x in self._underlying)
+			new_tuple = tuple(_widen(x, float) if x is not None else None for x in self._underlying)
 			_ALIAS_TRACKER.unregister(self, old_tuple_id)
 			self._underlying = new_tuple
 			_ALIAS_TRACKER.register(self, id(new_tuple))
 			self._dtype = DataType(float, nullable=self._dtype.nullable)
 		elif target_kind is complex and self._dtype.kind in (int, float):
 			old_tuple_id = id(self._underlying)
-			new_tuple = tuple(complex(x) if x is not None else None for x in self._underlying)
+			new_tuple = tuple(_widen(x, complex) if x is not None else None for x in self._underlying)
 			_ALIAS_TRACKER.unregister(self, old_tuple_id)
 			self._underlying = new_tuple
 			_ALIAS_TRACKER.register(self, id(new_tuple))
